@@ -37,6 +37,7 @@ def run(ctx):
     ctx.each(flowalg.link_registration_rule, ctx, repo, "R01k")
     ctx.each(flowalg.step_wiring_rule, ctx, repo, "R01l")
     ctx.each(flowalg.stateless_step_rule, ctx, repo, "R01m")
+    ctx.each(flowalg.kind_dispatch_rule, ctx, repo, "R01n")
 
 
 # ---------------------------------------------------------------------------------------------- R01a
